@@ -16,6 +16,9 @@ STRICT = os.environ.get("VERIF_C17_STRICT") == "1"
 PATCH = {"src/search.c": [(r"\nint\nvbi_search_next\(vbi_search \*search, vbi_page \*\*pg, int dir\)",
                            "\nvbi_search_status\nvbi_search_next(vbi_search *search, vbi_page **pg, int dir)")]}
 
+# walk obligation only: page slice of 2 text rows (see h_c17.c); -DLAST_ROW=3
+PATCH_WALK = {"src/search.c": PATCH["src/search.c"] + [(r"#define LAST_ROW 24", "#ifndef LAST_ROW\n#define LAST_ROW 24\n#endif")]}
+
 STUBS = ["_vbi_cache_foreach_page = harness model: walks the cached subset of a sorted universe of NP pages in cyclic (pgno, subno) order from the "
          "given position, `wrapped' after the page number wrapped, stops when the callback returns non-zero, 0 when nothing is cached",
          "vbi_format_vt_page = blank 25x41 page carrying pgno/subno (haystack obligation: rows 1-2 symbolic at columns 0..HC-1, 39, 40)",
@@ -26,7 +29,7 @@ STUBS = ["_vbi_cache_foreach_page = harness model: walks the cached subset of a 
 
 def obligations(tier, seed):
     known = {} if STRICT else {"KNOWN_C17_NO_STOP_PAGE": 1}
-    common = dict(harness="h_c17.c", patch=PATCH, stubs=STUBS)
+    common = dict(harness="h_c17.c", stubs=STUBS)
     walk_desc = ("up to NCALLS successive vbi_search_next calls, direction symbolic per call, start page/subpage symbolic (0x100..0x8FF incl. hex numbers, "
                  "subpage valid or VBI_ANY_SUBNO), universe of NP pages (page number, subpage, LOP or not, matching or not, position of the occurrence: all "
                  "symbolic), which of them are cached symbolic per call: every call returns (walk model asserts the callback stops it within one wrapped "
@@ -37,11 +40,13 @@ def obligations(tier, seed):
     obs = [
         Ob("walk", func="h_c17_walk", desc=walk_desc,
            encodes=["vbi_search_new", "vbi_search_next", "search_page_fwd", "search_page_rev", "highlight", "vbi_search_delete"],
-           defines=dict(known), unwind=42, unwindset=us,
-           grid=[dict(NP=2, NCALLS=3), dict(NP=3, NCALLS=3), dict(NP=1, NCALLS=4), dict(NP=3, NCALLS=4)],
-           quick_grid=[dict(NP=2, NCALLS=3), dict(NP=1, NCALLS=4)],
-           bounds="NP <= 3 pages in the universe, NCALLS <= 4 calls; one occurrence per matching page; page contents fixed over the calls, membership in the "
-                  "cache symbolic per call",
+           defines=dict(LAST_ROW=3, **known), unwind=42, unwindset=us, patch=PATCH_WALK,
+           grid=[dict(NP=n, NCALLS=3, DIRS=d, OCC=o) for n in (2, 3) for d in range(8) for o in (0, 80)] +
+                [dict(NP=1, NCALLS=4, DIRS=d, OCC=41) for d in (0, 5, 10, 15)] + [dict(NP=2, NCALLS=4, DIRS=d, OCC=39) for d in (0, 3, 6, 9, 15)],
+           quick_grid=[dict(NP=2, NCALLS=3, DIRS=d, OCC=o) for (d, o) in ((7, 0), (0, 80), (5, 41), (2, 39), (3, 0), (4, 80))] + [dict(NP=1, NCALLS=4, DIRS=15, OCC=0)],
+           bounds="NP <= 3 pages in the universe, NCALLS <= 4 calls; direction sequence (DIRS bit c = call c forward) and position of the occurrence (OCC) "
+                  "enumerated on the grid (all 8 direction sequences for 3 calls); one occurrence per matching page; page contents fixed over the calls, "
+                  "membership in the cache symbolic per call; search.c compiled with LAST_ROW = 3 (text rows 1..2)",
            assumes=[] if STRICT else ["KNOWN_C17_NO_STOP_PAGE (known finding): in every call some cached page lies at or beyond the origin of the pass "
                                       "(forward: key >= origin, backward: key <= origin); without such a page the real walk never ends"],
            outside="progress callback / CANCELED, formatting errors, replaced page contents between calls, more than one occurrence per page, ure.c",
@@ -50,7 +55,7 @@ def obligations(tier, seed):
            desc="literal search (regexp == FALSE): the pattern handed to ure_compile is the input with a backslash in front of every character of the "
                 "metacharacter list, all characters kept in order, nothing appended, length <= 2 x input (the malloc'ed buffer), and a backslash is never put in "
                 "front of a character whose meaning it would change (ure.c escape letters); empty pattern rejected; casefold passed through",
-           encodes=["vbi_search_new", "ucs2_strlen", "vbi_search_delete"], defines={"NP": 1, "PLEN": 5},
+           encodes=["vbi_search_new", "ucs2_strlen", "vbi_search_delete"], defines={"NP": 1, "PLEN": 5}, patch=PATCH,
            unwind=8, unwindset={"ure_compile.0": 17, "strchr.0": 31, "c17_is_meta.0": 31},
            bounds="pattern of <= 5 symbolic UCS-2 characters (first NUL ends it)",
            outside="note: characters >= 0x100 whose low byte is NUL or a metacharacter get a (harmless) backslash too - strchr() converts its int argument to char; "
@@ -60,7 +65,7 @@ def obligations(tier, seed):
            desc="haystack construction of search_page_fwd (through vbi_search_next on a one-page cache): rows 1..23, columns 0..39 in order, one character per "
                 "normal/double-height/double-width/double-size cell, continuation cells (OVER_TOP/OVER_BOTTOM/DOUBLE_HEIGHT2/DOUBLE_SIZE2) skipped, one "
                 "separator 0x000A per row, total length as computed and within the haystack buffer; matcher run once on the whole text",
-           encodes=["search_page_fwd", "vbi_search_next", "vbi_search_new"], defines={"NP": 1, "HC": 3}, unwind=42, unwindset=us,
+           encodes=["search_page_fwd", "vbi_search_next", "vbi_search_new"], defines={"NP": 1, "HC": 3}, unwind=42, unwindset=us, patch=PATCH,
            bounds="rows 1 and 2 symbolic at columns 0..2, 39, 40 (size attribute, unicode, all other attributes), rest of the page blank",
            assumes=["documented vbi_page invariant (format.h, vbi_size): the right neighbour of a DOUBLE_WIDTH/DOUBLE_SIZE cell is an OVER_TOP cell with the same unicode"],
            outside="search_page_rev's copy of the same loop (covered only through the walk obligation on blank pages)",
